@@ -19,6 +19,10 @@ RULE = ("real Graphs (adj/rev filled as edge_loader.rs does, every 25th random c
         "evaluation), S = the verified near-linear checker SccDeep.deep_check/check_largest (c18_deep_check_sound) on the "
         "implementation's output, run-length encoded by the harness and listed in a certificate order (topological order of the "
         "condensation, computed by the harness, only checked in Coq). "
+        "Family loaded (46 cases quick, 406 thorough): generated edge lists (the ring with a connector of length 0, small random "
+        "graphs of all the random kinds, <=14 vertices) written to edges.csv/vertices.csv with a distance column drawn from "
+        "{0.0, 1e-9, 0.01, 1.0, 123.456} and read back through Graph::from_files, judged like every other case by check_scc on the "
+        "EDGE LIST of the file (not on the loaded adjacency): connectivity must not depend on the length of an edge. "
         "Other families: I = canonical components + largest of all_strongly_connected_componenets / largest_strongly_connected_component, "
         "M = the same from the Coq model, S = verified checker check_scc/check_largest on the implementation's raw output; "
         "non-trivial = at least one component of size >=2 and at least 2 components; distinct by (n, edge list)")
